@@ -230,6 +230,18 @@ class DevOut(mports.BaseOutput):
     _close = DevIO._close
 
 
+class DevOutSend(mports.BaseOutput):
+    """Shaped after mido.backends.rtmidi.Output and amidi.Output: the port overrides send() itself."""
+    _open = DevIO._open
+    _close = DevIO._close
+
+    def send(self, msg):
+        if self.closed:
+            raise ValueError('send() called on closed port')
+        with self._lock:
+            self.dev.on_send(msg.copy())
+
+
 class BodyError(Exception):
     pass
 
@@ -262,7 +274,17 @@ class Lifecycle(BaseEngine):
             spec['send_fail'] = sorted({rng.randrange(40) for _ in range(3)})
         return spec
 
+    def _netsim(self):
+        from .netsim import ENGINE as NS
+        return NS
+
     def gen(self, prop, seed, idx, tier):
+        if idx % 8 == 5:
+            # socket ports are port types too: one run in eight is a history of the network world (engine netsim),
+            # judged by that world's rules for iteration, closing and blocking calls
+            plan = self._netsim().gen(prop, seed, idx, tier)
+            plan['addresses'] = False
+            return plan
         rng = rng_for(prop, seed, idx, 'plan')
         kind = pick(rng, [k for k in KINDS if k not in self.avoid])
         plan = {'prop': prop, 'kind': kind, 'autoreset': rng.random() < 0.4,
@@ -278,6 +300,8 @@ class Lifecycle(BaseEngine):
             plan['dev'] = self._gen_dev(rng, can_hang=rng.random() < 0.4)
         else:
             plan['dev'] = self._gen_dev(rng)
+            if kind == 'dev_out' and rng.random() < 0.4:
+                plan['dev']['override_send'] = True     # a backend-style port that overrides send(), not _send()
         can_in = kind != 'dev_out'
         can_out = kind != 'dev_in'
         ops = []
@@ -310,6 +334,13 @@ class Lifecycle(BaseEngine):
     # ---------------------------------------------------------------- execution
     def abort_cleanup(self):
         self._restore()
+        self._netsim().abort_cleanup()
+
+    def wants_isolation(self, plan):
+        return 'scn' in plan and self._netsim().wants_isolation(plan)
+
+    def same_signature(self, a, b):
+        return a == b
 
     def _restore(self):
         saved = getattr(self, '_saved', None)
@@ -322,6 +353,8 @@ class Lifecycle(BaseEngine):
             gc.enable()
 
     def run(self, prop, plan, keep_log=False):
+        if 'scn' in plan:
+            return self._netsim().run(prop, plan, keep_log=keep_log)
         log = Log(keep_log)
         stats = collections.Counter()
         cov = set()
@@ -360,6 +393,8 @@ class Lifecycle(BaseEngine):
                 return mports.EchoPort('echo', autoreset=ar)
             devs.append(d)
             cls = {'dev_io': DevIO, 'dev_in': DevIn, 'dev_out': DevOut}[k]
+            if k == 'dev_out' and spec.get('override_send'):
+                cls = DevOutSend
             if k == 'dev_in':
                 return cls('dev', dev=d)
             return cls('dev', dev=d, autoreset=ar)
@@ -907,6 +942,9 @@ class Lifecycle(BaseEngine):
 
     # ---------------------------------------------------------------- shrinking
     def shrink(self, prop, plan):
+        if 'scn' in plan:
+            yield from self._netsim().shrink(prop, plan)
+            return
         yield from shrink_list_at(plan, ('ops',), min_len=1)
         if plan['kind'] == 'multi':
             if len(plan['subs']) > 1:
@@ -960,7 +998,9 @@ class Lifecycle(BaseEngine):
                          'reset_messages, panic_messages', 'mido.parser.Parser (inside device ports)'],
                 'stub': ['device below _send/_receive/_close (arrival schedule, hang-up, write errors)',
                          'time.sleep -> virtual clock', 'random.shuffle -> planned rotation'],
-                'not_run': ['socket ports (exercised by the netsim engine, C18)', 'C-library backends']}
+                'real_one_run_in_eight': ['mido.sockets SocketPort/PortServer through the netsim world (its rules for '
+                                          'iteration, closing and blocking calls)'],
+                'not_run': ['C-library backends (a double that overrides send() like rtmidi/amidi outputs is used)']}
 
     def assumptions(self, prop):
         return ['Single caller thread: the documentation says opening/closing ports is not thread safe.',
